@@ -161,22 +161,12 @@ impl<'a> World<'a> {
                 let l_delegate = self.actors[self.l].delegate;
                 let need = self.threshold.saturating_sub(l_delegate as usize);
                 let mut valid = 0;
-                let mut local_served = false;
                 let server_repo = self.server_repo();
                 let server = Self::snapshot(&server_repo.backend);
                 for d in self.delegates() {
                     let ns = self.actors[d].nid.to_string();
                     if d == self.l {
-                        // The statement counts "delegates with valid signed refs" and lowers the bar by one when the
-                        // local node is a delegate; it does not say that the local node's own namespace (stored, or
-                        // offered by the serving peer to a delegate cloning without local data) must not count as
-                        // well. The implementation counts it, so the local delegate is in effect counted twice; the
-                        // oracle follows the statement and only records how often that decided the outcome.
-                        if let Some(a) = after.get(&ns) {
-                            if matches!(validity(&repo, &self.rid, &ns, a), Ok(()) | Err("no-identity-root")) {
-                                local_served = true;
-                            }
-                        }
+                        // the local node never counts: the bar was lowered by one on its behalf
                         continue;
                     }
                     if let Some(a) = after.get(&ns) {
@@ -208,9 +198,7 @@ impl<'a> World<'a> {
                         }
                     }
                 }
-                if valid < need && valid + (local_served as usize) >= need {
-                    self.res.hit("probe.c02.success_only_because_local_delegate_namespace_counted");
-                } else if valid < need {
+                if valid < need {
                     self.res.violate(&own, "C02", "C02/success-below-threshold", format!("the fetch reported success with {valid} valid delegate namespace(s) other than the local node; threshold {} (local node delegate: {l_delegate})", self.threshold));
                 } else {
                     self.res.hit("probe.c02.success_with_threshold");
